@@ -1,6 +1,6 @@
 (* The single entry point of the extracted model: function name + wire value -> wire value.
    Definitions only. *)
-Require Import Lib.Base Lib.Chain Gen.Gen_parser Model.Fold Model.Text.
+Require Import Lib.Base Lib.Chain Gen.Gen_parser Model.Fold Model.Text Model.Params Model.Contentline.
 From Coq Require Import String.
 Local Open Scope string_scope.
 
@@ -12,6 +12,36 @@ Definition jxres (x : xres) : jv :=
   | XCounter w => jtag "counterexample" [JS w]
   | XFuel => jtag "fuel" []
   end.
+
+Definition jres {A} (f : A -> jv) (r : res A) : jv :=
+  match r with
+  | Ok a => f a
+  | ValueErr => jerr "ValueError"
+  | Escape k => jtag "err" [JS k]
+  | Unsup => junsupported
+  end.
+
+Definition jpval (v : pval) : jv := match v with PStr s => JS s | PList l => jstrs l end.
+Definition jparams (ps : params) : jv := JL (map (fun kv : list N * pval => JL [JS (fst kv); jpval (snd kv)]) ps).
+
+Definition pval_of (v : jv) : option pval :=
+  match v with
+  | JS s => Some (PStr s)
+  | JL l => option_map PList (jv_strs l)
+  | _ => None
+  end.
+Fixpoint params_of (l : list jv) : option params :=
+  match l with
+  | [] => Some []
+  | JL [JS k; v] :: r =>
+      match pval_of v, params_of r with
+      | Some pv, Some r' => Some ((k, pv) :: r')
+      | _, _ => None
+      end
+  | _ => None
+  end.
+Definition keys_ascii (ps : params) : bool := forallb (fun kv : list N * pval => all_ascii (fst kv)) ps.
+Definition maxsplit_of (z : Z) : option nat := if (z <? 0)%Z then None else Some (Z.to_nat z).
 
 Definition dispatch (f : list N) (a : jv) : jv :=
   if is f "foldline" then
@@ -43,4 +73,38 @@ Definition dispatch (f : list N) (a : jv) : jv :=
     match a with JS l => jbool (line_safe l) | _ => junsupported end
   else if is f "c07_explore" then
     JL [jxres direct_explore; jxres line_explore; jxres direct_explore_noguard; jxres line_explore_noguard]
+  else if is f "dquote" then
+    match a with JS l => JS (dquote l) | _ => junsupported end
+  else if is f "q_join" then
+    match a with JL l => match jv_strs l with Some ss => JS (q_join ss) | None => junsupported end | _ => junsupported end
+  else if is f "q_split" then
+    match a with
+    | JL [JS st; JZ sep; JZ ms] => jstrs (q_split st (Z.to_N sep) (maxsplit_of ms))
+    | _ => junsupported end
+  else if is f "params_to_ical" then
+    match a with
+    | JL [JZ sorted; JL ps] =>
+        match params_of ps with
+        | Some ps => if keys_ascii ps then JS (params_to_ical (negb (sorted =? 0)%Z) ps) else junsupported
+        | None => junsupported end
+    | _ => junsupported end
+  else if is f "params_from_ical" then
+    match a with JS st => jres jparams (params_from_ical st) | _ => junsupported end
+  else if is f "from_parts" then
+    match a with
+    | JL [JS name; JL ps; JZ sorted; JS v] =>
+        match params_of ps with
+        | Some ps => if keys_ascii ps then jres JS (from_parts name ps (negb (sorted =? 0)%Z) v) else junsupported
+        | None => junsupported end
+    | _ => junsupported end
+  else if is f "parts" then
+    match a with
+    | JS line => jres (fun x : list N * params * list N =>
+                         let '(n, ps, v) := x in JL [JS n; jparams ps; JS v]) (parts line)
+    | _ => junsupported end
+  else if is f "contentlines_from_ical" then
+    match a with JS st => jstrs (contentlines_from_ical st) | _ => junsupported end
+  else if is f "contentlines_to_ical" then
+    match a with JL l => match jv_strs l with Some ss => JS (contentlines_to_ical ss) | None => junsupported end
+    | _ => junsupported end
   else jtag "nofunc" [].
